@@ -174,6 +174,8 @@ class WriteMultipleRegistersRequest(ModbusRequest):
         self.byte_count = struct.unpack('>HHB', data[:5])
         self.values = []  # reset
         for idx in range(5, (self.count * 2) + 5, 2):
+            if idx + 2 > len(data):
+                break  # fewer registers supplied than announced: rejected in execute
             self.values.append(struct.unpack('>H', data[idx:idx + 2])[0])
 
     def execute(self, context):
@@ -185,6 +187,8 @@ class WriteMultipleRegistersRequest(ModbusRequest):
         if not (1 <= self.count <= 0x07b):
             return self.doException(merror.IllegalValue)
         if (self.byte_count != self.count * 2):
+            return self.doException(merror.IllegalValue)
+        if len(self.values) != self.count:
             return self.doException(merror.IllegalValue)
         if not context.validate(self.function_code, self.address, self.count):
             return self.doException(merror.IllegalAddress)
